@@ -353,11 +353,16 @@ func (rn *Runner) Run(stmts []Stmt) (viol []Violation, state string, harness str
 				add("audit/stored-contains-plaintext", "stored value of protected column contains the plaintext %.20q", q)
 			}
 			if c.Masked && len(q) >= 8 {
-				hidden := q[2:]
-				if c.MaskLen < 0 {
-					hidden = q[:len(q)+c.MaskLen]
+				// the part masking hides (plaintext_length 2 on the left, |MaskLen| on the right: as before);
+				// other plaintext lengths: the bytes outside the visible side, the whole value when it is
+				// not longer than plaintext_length
+				hidden := q
+				if n := c.MaskLen; n > 0 && n < len(q) {
+					hidden = q[n:]
+				} else if n < 0 && -n < len(q) {
+					hidden = q[:len(q)+n]
 				}
-				if bytes.Contains(p, hidden) {
+				if len(hidden) >= 5 && bytes.Contains(p, hidden) {
 					add("audit/stored-contains-hidden-part", "stored value of masked column contains the hidden part %.20q", hidden)
 				}
 			}
